@@ -751,3 +751,28 @@ Lemma ignores_after_cut_general_example :
   /\ find (fun f => is_msg f && (2 <? fseq f)) s9_log = Some (mkf 3 BMsg)
   /\ forallb (fun f => negb (visible false (3 - 1) f)) [mkf 4 BMsg; mkf 5 (BCkpt true 4 0); mkf 6 (BRunEnded 0 1)] = true.
 Proof. conjs; vm_compute; reflexivity. Qed.
+
+(* ------------------------------------------------------------------ S24: a compile racing with an append.
+   The tail path reads the messages from the mr sidecar and the head from the full sidecar; an append writes the
+   full sidecar first.  In between, the input is (mr projection of l, head of l ++ [f]): the cut is then neither the
+   cut of l nor the cut of l ++ [f] when f is a message. *)
+Definition race_log : log := [mkf 0 BOther; mkf 1 BMsg; mkf 2 BMsg].
+Definition race_frame : frame := mkf 3 BMsg.
+Lemma racing_cut_refuted :
+  exists l f a,
+    valid_log (l ++ [f]) = true
+    /\ tail_cut (filter mr_keep l) (head_seq (l ++ [f])) a <> cut_point l a
+    /\ tail_cut (filter mr_keep l) (head_seq (l ++ [f])) a <> cut_point (l ++ [f]) a.
+Proof. exists race_log, race_frame, 2. conjs; vm_compute; [reflexivity | discriminate | discriminate]. Qed.
+
+(* with the projection and the head of the SAME thread state the tail path is right: tail_cut_agrees; and an
+   appended frame that is not in the mr projection linearizes to "after" *)
+Lemma racing_cut_non_mr_frame keep l f a :
+  incr (l ++ [f]) -> (forall g, mr_keep g = true -> keep g = true) -> keep f = false ->
+  existsb (is_anchor a) (filter keep l) = true ->
+  tail_cut (filter keep l) (head_seq (l ++ [f])) a = cut_point (l ++ [f]) a.
+Proof.
+  intros S K Kf Ea.
+  apply (tail_cut_agrees keep (l ++ [f]) [] (filter keep l) a S K); [|exact Ea].
+  rewrite filter_app. cbn [filter]. rewrite Kf. now rewrite app_nil_r.
+Qed.
